@@ -69,6 +69,8 @@ def cases(tier, seed):
     for c in out:
         c["name"] = "vs single-thread contiguous:" + R.case_name(c)
     # (c) chunked key state (per-chunk dictionaries + pointer tables) vs contiguous global codes
+    if tier == "thorough":
+        N = 5          # chunked-key states: N=6 with three symbolic pointer tables exceeds the solver budget
     lay = compositions(N, 2 if tier == "quick" else 3, 2)
     gfuncs = ("sum", "min", "max", "first", "last", "count", "mean") if tier == "quick" else ("sum", "min", "max", "first", "last", "count", "mean", "sum_squares", "size")
     for lengths in lay:
